@@ -166,7 +166,87 @@ fn http_provision(port: u16, tick: Option<&str>, metadata: bool, read_timeout: D
     Ok((status, body))
 }
 
+/// A reader of status.tag that keeps the file it saw last open until its next look.  Because the old inode stays
+/// referenced its number cannot be reused, so "same (st_dev, st_ino), different content" really is a modification in
+/// place; and the content readable through the old descriptor must never change after it was read in full (a file
+/// replaced by rename leaves the old inode untouched, a write / O_TRUNC on the visible name does not).
+struct TagWatch {
+    held: Option<(std::fs::File, u64, u64, Vec<u8>)>,
+}
+
+struct TagLook {
+    content: Option<String>,
+    ino: u64,
+    same_inode: bool,               // same (dev, ino) as at the previous look
+    changed: bool,                  // content differs from the previous look
+    old_fd: Option<(String, String)>, // content of the previously seen file changed under the open descriptor: (was, now)
+}
+
+fn read_all_at(f: &std::fs::File) -> Vec<u8> {
+    use std::os::unix::fs::FileExt;
+    let mut b = Vec::new();
+    let mut off = 0u64;
+    let mut buf = [0u8; 4096];
+    loop {
+        match f.read_at(&mut buf, off) {
+            Ok(0) | Err(_) => break,
+            Ok(n) => {
+                b.extend_from_slice(&buf[..n]);
+                off += n as u64;
+            }
+        }
+    }
+    b
+}
+
+impl TagWatch {
+    fn new() -> Self {
+        TagWatch { held: None }
+    }
+
+    fn look(&mut self, path: &std::path::Path) -> TagLook {
+        use std::os::unix::fs::MetadataExt;
+        let lossy = |b: &[u8]| String::from_utf8_lossy(b).to_string();
+        let prev: Option<Vec<u8>> = self.held.as_ref().map(|h| h.3.clone());
+        let mut old_fd = None;
+        if let Some((f, _, _, c)) = self.held.as_mut() {
+            let now = read_all_at(f);
+            if now != *c {
+                old_fd = Some((lossy(c), lossy(&now)));
+            }
+        }
+        match std::fs::File::open(path) {
+            Ok(f) => {
+                let (dev, ino) = f.metadata().map(|m| (m.dev(), m.ino())).unwrap_or((0, 0));
+                let b = read_all_at(&f);
+                let same_inode = self.held.as_ref().map(|h| h.1 == dev && h.2 == ino).unwrap_or(false);
+                let changed = prev.as_ref().map(|p| *p != b).unwrap_or(true);
+                let content = Some(lossy(&b));
+                if same_inode {
+                    if let Some(h) = self.held.as_mut() {
+                        h.3 = b;
+                    }
+                } else {
+                    self.held = Some((f, dev, ino, b));
+                }
+                TagLook { content, ino, same_inode, changed, old_fd }
+            }
+            Err(_) => {
+                let changed = self.held.is_some();
+                self.held = None;
+                TagLook { content: None, ino: 0, same_inode: false, changed, old_fd }
+            }
+        }
+    }
+}
+
+fn look_json(l: &TagLook) -> Value {
+    json!({"tag": l.content, "tag_ino": l.ino, "tag_same_inode": l.same_inode, "tag_changed": l.changed,
+           "tag_oldfd": l.old_fd.as_ref().map(|(a, b)| json!({"was": a, "now": b}))})
+}
+
 struct Run {
+    watch: TagWatch,
     rt: tokio::runtime::Handle,
     shared: SharedState,
     gates: Gates,
@@ -191,11 +271,9 @@ impl Run {
         self.keys_dir.join("status.tag")
     }
 
-    fn read_tag(&self) -> Value {
-        match std::fs::read(self.tag_path()) {
-            Ok(b) => json!(String::from_utf8_lossy(&b).to_string()),
-            Err(_) => Value::Null,
-        }
+    fn read_tag(&mut self) -> Value {
+        let p = self.tag_path();
+        look_json(&self.watch.look(&p))
     }
 
     fn project(&mut self) -> (u8, i128) {
@@ -313,12 +391,16 @@ impl Run {
 
     fn emit_step(&mut self, t: &str, i: u64, a: &str, x: &str, out: &Outcome, extra: Value, do_project: bool) {
         let (flags, fin) = if do_project { self.project() } else { (self.last_flags, self.last_fin) };
+        let look = self.read_tag();
         let mut ev = json!({"e": "Step", "run": self.id, "k": self.k, "t": t, "i": i, "a": a, "x": x,
-            "flags": flags, "fin": fin.to_string(), "now": now_nanos().to_string(), "tag": self.read_tag(),
+            "flags": flags, "fin": fin.to_string(), "now": now_nanos().to_string(),
             "latch": self.latch,
             "out": match out { Outcome::Gate(l, _) => json!(l), Outcome::Done => json!("done"), Outcome::Timeout => json!("timeout") }});
         if let (Some(o), Some(e)) = (ev.as_object_mut(), extra.as_object()) {
             for (k, v) in e {
+                o.insert(k.clone(), v.clone());
+            }
+            for (k, v) in look.as_object().unwrap() {
                 o.insert(k.clone(), v.clone());
             }
         }
@@ -526,7 +608,8 @@ impl Run {
         }
         self.shared.cancel_cancellation_token();
         std::thread::sleep(Duration::from_millis(15));
-        verif::trace::emit(json!({"e": "RunEnd", "run": self.id, "tag": self.read_tag()}));
+        let look = self.read_tag();
+        verif::trace::emit(json!({"e": "RunEnd", "run": self.id, "tag": look["tag"]}));
     }
 }
 
@@ -572,7 +655,7 @@ fn new_run(rt: &tokio::runtime::Runtime, id: Value, port: u16) -> Run {
     }
     let mut run = Run {
         rt: rt.handle().clone(), shared, gates, port, id: id.clone(), tasks: HashMap::new(), ticks: Vec::new(), latch: false,
-        keys_dir, k: 0, last_fin: 0, last_flags: 0, plan: HashMap::new(), cur: 0, nsteps: 0, tail: 0,
+        watch: TagWatch::new(), keys_dir, k: 0, last_fin: 0, last_flags: 0, plan: HashMap::new(), cur: 0, nsteps: 0, tail: 0,
     };
     std::thread::sleep(Duration::from_micros(300));
     let t1 = now_nanos();
@@ -605,7 +688,7 @@ fn run_replay(rt: &tokio::runtime::Runtime, spec: &Value, port: u16) {
     }
     // tag observer (race phases)
     let observing = Arc::new(AtomicBool::new(false));
-    let obs: Arc<Mutex<Vec<(i128, Option<String>, u64)>>> = Arc::new(Mutex::new(Vec::new()));
+    let obs: Arc<Mutex<Vec<Value>>> = Arc::new(Mutex::new(Vec::new()));
     let mut observer: Option<std::thread::JoinHandle<()>> = None;
     let mut race_t0: Option<Instant> = None;
     let mut stuck = false;
@@ -620,22 +703,15 @@ fn run_replay(rt: &tokio::runtime::Runtime, spec: &Value, port: u16) {
             let o2 = obs.clone();
             let path = run.tag_path();
             observer = Some(std::thread::spawn(move || {
-                use std::os::unix::fs::MetadataExt;
-                let mut last: Option<(Option<String>, u64)> = None;
+                let mut w = TagWatch::new();
+                let mut first = true;
                 while flag.load(Ordering::SeqCst) {
-                    // content and inode through one descriptor
-                    let cur = match std::fs::File::open(&path) {
-                        Ok(mut f) => {
-                            let ino = f.metadata().map(|m| m.ino()).unwrap_or(0);
-                            let mut b = Vec::new();
-                            let _ = f.read_to_end(&mut b);
-                            (Some(String::from_utf8_lossy(&b).to_string()), ino)
-                        }
-                        Err(_) => (None, 0),
-                    };
-                    if last.as_ref() != Some(&cur) {
-                        o2.lock().unwrap().push((now_nanos(), cur.0.clone(), cur.1));
-                        last = Some(cur);
+                    let l = w.look(&path);
+                    if first || l.changed || !l.same_inode && l.content.is_some() || l.old_fd.is_some() {
+                        let mut v = look_json(&l);
+                        v["at"] = json!(now_nanos().to_string());
+                        o2.lock().unwrap().push(v);
+                        first = false;
                     }
                     std::thread::sleep(Duration::from_micros(150));
                 }
@@ -764,7 +840,11 @@ fn run_replay(rt: &tokio::runtime::Runtime, spec: &Value, port: u16) {
         std::thread::sleep(Duration::from_millis(5));
         observing.store(false, Ordering::SeqCst);
         let _ = h.join();
-        let v: Vec<Value> = obs.lock().unwrap().iter().map(|(t, c, i)| json!({"at": t.to_string(), "tag": c, "ino": i})).collect();
+        let v: Vec<Value> = obs.lock().unwrap().iter().map(|o| {
+            let mut o = o.clone();
+            o["ino"] = o["tag_ino"].clone();
+            o
+        }).collect();
         verif::trace::emit(json!({"e": "TagObs", "run": run.id, "obs": v}));
     }
 }
